@@ -166,10 +166,22 @@ def run(ck):
     for c in (cases[5], cases[len(cases) // 2], cases[-1]):
         ck.sample({'prefix': c[0], 'appended_bytes': c[1][:30], 'expected_messages': c[2][:6]})
     ck.compare('parser.resync', reqs, [r[0] for r in res], ck.driver.run(reqs))
+    # resynchronisation inside longer sessions: a call left by an exception, a sysex continued by long chunks, a cut-short
+    # message followed by a chunk that is exactly one message, two parsers that are both inside a message
+    from . import C05 as c05
+    sess = c05.special_sessions(ck.rng, 1200 if ck.tier == 'quick' else 12000)
+    for h, (lines, fail) in zip(sess, pool_map(c05.run_history, sess, chunksize=200)):
+        ck.evaluations += 1
+        ck.count('sessions')
+        if fail:
+            ck.oracle_fail({'session': h}, fail)
     return ck.finish(RULE)
 
 
 def oracle(case):
+    if 'session' in case:
+        from . import C05 as c05
+        return c05.oracle({'ops': case['session']})
     c = (case['prefix'], case['tail'], case['expect'])
     if case.get('pieces'):
         c = c + (case['pieces'],)
